@@ -29,6 +29,7 @@ static unsigned char *buf;            /* guard | array | guard | scratch | guard
 static unsigned char *arr, *scratch;
 static size_t ESZ, N;
 static unsigned char probe[64];
+static const unsigned char *alias_probe;   /* a probe that is itself an element of the searched array */
 static FILE *out;
 static long nrec;
 
@@ -87,7 +88,8 @@ static int cmp3(long a, long b)
 static int cmp(const void *a, const void *b, void *p)
 {
     if (p != (void *)&priv_token) priv_ok = 0;
-    ev_add('c', idx_of(a), idx_of(b));
+    /* a probe that lives inside the array is still "the probe" in the position the library passes the probe in (first) */
+    ev_add('c', alias_probe && a == alias_probe ? -1 : idx_of(a), idx_of(b));
     return cmp3(*(const unsigned char *)a, *(const unsigned char *)b);
 }
 static int swap_scratch_ok = 1;
@@ -221,33 +223,36 @@ static void run_sort(const int *vals, size_t n, size_t esz, int algo, int via, i
         end_rec(sig == SIGALRM ? "hang" : sig == SIGABRT ? "abort" : "segv", 0);
     }
 }
-static void run_probe(const char *op, const int *vals, size_t n, size_t esz, int x, int via)
+static void run_probe(const char *op, const int *vals, size_t n, size_t esz, int x, int via, int alias)
 {
-    long r = -7; int sig;
+    long r = -7; int sig; const void *pp = probe;
     layout(n, esz); fill(vals);
     memset(probe, 0, sizeof probe); probe[0] = (unsigned char)x;
     begin_rec(op);
-    fprintf(out, "\"x\":%d,\"via\":%d,", x, via); put_arr("A"); fputs(",", out);
+    fprintf(out, "\"x\":%d,\"via\":%d,\"alias\":%d,", x, via, alias); put_arr("A"); fputs(",", out);
+    alias_probe = NULL;
     sig = sigsetjmp(jb, 1);
     if (sig == 0) {
         alarm(20);
         if (via == 0) {
-            if (!strcmp(op, "search")) r = (long)cstl_raw_array_search(arr, n, esz, probe, cmp, &priv_token);
-            else if (!strcmp(op, "find")) r = (long)cstl_raw_array_find(arr, n, esz, probe, cmp, &priv_token);
+            if (alias >= 0) pp = alias_probe = arr + (size_t)alias * esz;
+            if (!strcmp(op, "search")) r = (long)cstl_raw_array_search(arr, n, esz, pp, cmp, &priv_token);
+            else if (!strcmp(op, "find")) r = (long)cstl_raw_array_find(arr, n, esz, pp, cmp, &priv_token);
             else cstl_raw_array_reverse(arr, n, esz, swp, scratch);
         } else {
             struct cstl_vector v; unsigned char *keep_arr = arr, *keep_scr = scratch;
             cstl_vector_init(&v, esz); cstl_vector_resize(&v, n);
             if (n) memcpy(cstl_vector_data(&v), keep_arr, n * esz);
             arr = cstl_vector_data(&v); scratch = arr ? arr + cstl_vector_capacity(&v) * esz : NULL;
-            if (!strcmp(op, "search")) r = (long)cstl_vector_search(&v, probe, cmp, &priv_token);
-            else if (!strcmp(op, "find")) r = (long)cstl_vector_find(&v, probe, cmp, &priv_token);
+            if (alias >= 0) pp = alias_probe = arr + (size_t)alias * esz;          /* e.g. what cstl_vector_at() hands out */
+            if (!strcmp(op, "search")) r = (long)cstl_vector_search(&v, pp, cmp, &priv_token);
+            else if (!strcmp(op, "find")) r = (long)cstl_vector_find(&v, pp, cmp, &priv_token);
             else __cstl_vector_reverse(&v, swp);
             if (n) memcpy(keep_arr, arr, n * esz);
             arr = keep_arr; scratch = keep_scr;
             cstl_vector_clear(&v);
         }
-        alarm(0);
+        alarm(0); alias_probe = NULL;
         fprintf(out, "\"ret\":%ld,", r); put_arr("A1"); fputs(",", out); put_ids();
         end_rec("ok", 1);
     } else { alarm(0); fputs("\"ret\":0,\"A1\":[],\"ids\":[]", out); end_rec(sig == SIGALRM ? "hang" : "segv", 0); }
@@ -294,10 +299,15 @@ int main(int argc, char **argv)
                     /* search on the sorted array, find and reverse on the array as it is */
                     memcpy(sorted, vals, sizeof(int) * (size_t)len); qsort(sorted, (size_t)len, sizeof(int), icmp);
                     if (si % 2 == 0) for (k = 0; k <= 4; k++) {
-                        run_probe("search", sorted, (size_t)len, esz, k, (int)(code & 1));
-                        run_probe("find", vals, (size_t)len, esz, k, (int)((code >> 1) & 1));
+                        run_probe("search", sorted, (size_t)len, esz, k, (int)(code & 1), -1);
+                        run_probe("find", vals, (size_t)len, esz, k, (int)((code >> 1) & 1), -1);
                     }
-                    run_probe("reverse", vals, (size_t)len, esz, 0, (int)(code & 1));
+                    /* the probe is an element of the array itself (a pointer from cstl_vector_at, say) */
+                    if (si % 2 == 0) for (k = 0; k < len; k++) {
+                        run_probe("search", sorted, (size_t)len, esz, sorted[k], (int)((code >> 1) & 1), k);
+                        run_probe("find", vals, (size_t)len, esz, vals[k], (int)(code & 1), k);
+                    }
+                    run_probe("reverse", vals, (size_t)len, esz, 0, (int)(code & 1), -1);
                 }
             }
         }
